@@ -41,6 +41,11 @@ theorem block_single {F ρ w s r} (h : StmtS F ρ w s r) (hr : ∀ ρ' sig w', r
     have := hr ρ' sig w' rfl; subst this
     exact block_cons h block_nil
 
+theorem EvS.unique {F ρ w e r1 r2} (h1 : EvS F ρ w e r1) (h2 : EvS F ρ w e r2) : r1 = r2 := by
+  obtain ⟨m1, h1⟩ := h1
+  obtain ⟨m2, h2⟩ := h2
+  rw [← h1 (max m1 m2) (by omega), ← h2 (max m1 m2) (by omega)]
+
 theorem compileTail_simple (env : Env) (m : Mode) (st : St) {c : CExpr} (h : isCtl c = false) :
     (compileTail env m st c).1 = compileSimple env m c := by
   cases c <;> simp [isCtl] at h <;> rfl
@@ -65,10 +70,30 @@ theorem not_missing {env : Env} {file : AFile} {G : List String} {Γ : Ctx} {f :
 /-- the same for a call of the fragment, ordinary or of a reference / array builtin -/
 theorem not_missing' {env : Env} {file : AFile} {G : List String} {Γ : Ctx} {f : Imm} {args : List Imm} {ty : Ty}
     (h : (callOK env file G Γ f args ty || refCallOK env file G Γ f args ty || arrCallOK env file G Γ f args ty ||
-      localCallOK env file G Γ f args ty) = true) :
+      localCallOK env file G Γ f args ty || vecCallOK env file G Γ f args ty) = true) :
     isMissingCall f ty = false := by
   simp only [Bool.or_eq_true] at h
-  rcases h with ((h | h) | h) | h
+  rcases h with (((h | h) | h) | h) | h
+  rotate_left 4
+  · -- a `Vec` builtin
+    cases f with
+    | var name fty =>
+      simp only [vecCallOK, Bool.and_eq_true, beq_iff_eq] at h
+      obtain ⟨⟨_, hrn⟩, hcase⟩ := h
+      by_cases h1 : name = "vec_new"
+      · subst h1; simp [isMissingCall, callee, hrn]
+      · rw [if_neg h1] at hcase
+        by_cases h2 : name = "vec_push"
+        · subst h2; simp [isMissingCall, callee, hrn]
+        · rw [if_neg h2] at hcase
+          by_cases h3 : name = "vec_get"
+          · subst h3; simp [isMissingCall, callee, hrn]
+          · rw [if_neg h3] at hcase
+            by_cases h4 : name = "vec_len"
+            · subst h4; simp [isMissingCall, callee, hrn]
+            · rw [if_neg h4] at hcase; cases hcase
+    | prim p t => simp [vecCallOK] at h
+    | tag i t => simp [vecCallOK] at h
   rotate_left 3
   · -- a call through a local
     cases f with
@@ -443,7 +468,13 @@ theorem tail_match {env : Env} {η : Hp} {file : AFile} {G : List String} {P : P
         simp only [Imm.toExpr] at h0
         rw [Sem.eval] at h0; simp only [hlk] at h0
         injection h0 with h0; subst h0
-        rw [h3] at h3'; injection h3' with h3'; subst h3'
+        have hgeq : gv = gv' := by
+          have h1 : EvS F gρ gw (.var (vn x) (goTy (.enum en))) (.ok gv' gw) := ev_var_some hlg
+          have h2 := hgs gw
+          simp only [compileImm] at h2
+          have := EvS.unique h2 h1
+          injection this with this
+        subst hgeq
         cases v' <;> simp only [HasTy] at h4 <;> try exact h4.elim
         rename_i en' i vs
         have hen' : en' = en := h4.1
@@ -500,7 +531,7 @@ theorem tail_match {env : Env} {η : Hp} {file : AFile} {G : List String} {P : P
         (compileDflt env m (compileArms env m st1 arms).2 d).1]) gρ := hinv
       rw [ndDecls_switch, armDecls_valueCases] at h
       cases hd : (compileDflt env m (compileArms env m st1 arms).2 d).1 <;> simpa [optDecls, hd] using h
-    have hR := hmv m st1 arms d ty .bool η Γ K ρ w gρ gw Bad v gv hsw hfa hfd hrel hkrel hw h4 h3 hinv' htgt hus hfx hcal'
+    have hR := hmv m st1 arms d ty .bool η Γ K ρ w gρ gw Bad v gv hsw hfa hfd hrel hkrel hw h4 (hsty ▸ h3) hinv' htgt hus hfx hcal'
     exact concl_of_sw hR (fun r hr => stmt_switch (hgs gw) hr)
   | int bits sg =>
     rw [hsty] at hcase h4; simp only [Bool.and_eq_true] at hcase
@@ -516,7 +547,7 @@ theorem tail_match {env : Env} {η : Hp} {file : AFile} {G : List String} {P : P
         (compileDflt env m (compileArms env m st1 arms).2 d).1]) gρ := hinv
       rw [ndDecls_switch, armDecls_valueCases] at h
       cases hd : (compileDflt env m (compileArms env m st1 arms).2 d).1 <;> simpa [optDecls, hd] using h
-    have hR := hmv m st1 arms d ty (.int bits sg) η Γ K ρ w gρ gw Bad v gv hsw hfa hfd hrel hkrel hw h4 h3 hinv' htgt hus hfx hcal'
+    have hR := hmv m st1 arms d ty (.int bits sg) η Γ K ρ w gρ gw Bad v gv hsw hfa hfd hrel hkrel hw h4 (hsty ▸ h3) hinv' htgt hus hfx hcal'
     exact concl_of_sw hR (fun r hr => stmt_switch (hgs gw) hr)
   | string =>
     rw [hsty] at hcase h4; simp only [Bool.and_eq_true] at hcase
@@ -532,7 +563,7 @@ theorem tail_match {env : Env} {η : Hp} {file : AFile} {G : List String} {P : P
         (compileDflt env m (compileArms env m st1 arms).2 d).1]) gρ := hinv
       rw [ndDecls_switch, armDecls_valueCases] at h
       cases hd : (compileDflt env m (compileArms env m st1 arms).2 d).1 <;> simpa [optDecls, hd] using h
-    have hR := hmv m st1 arms d ty .string η Γ K ρ w gρ gw Bad v gv hsw hfa hfd hrel hkrel hw h4 h3 hinv' htgt hus hfx hcal'
+    have hR := hmv m st1 arms d ty .string η Γ K ρ w gρ gw Bad v gv hsw hfa hfd hrel hkrel hw h4 (hsty ▸ h3) hinv' htgt hus hfx hcal'
     exact concl_of_sw hR (fun r hr => stmt_switch (hgs gw) hr)
   | float b => rw [hsty] at hcase; simp [switchTy] at hcase
   | tuple ts => rw [hsty] at hcase; simp [switchTy] at hcase
